@@ -5,8 +5,9 @@ Traces == ndJsonDeserialize(IOEnv.VF_RECS)
 VARIABLES i, ph
 Init == i \in 1..Len(Traces) /\ ph = 0
 Next == ph = 0 /\ ph' = 1 /\ UNCHANGED i
-J == ph = 1
 T == Traces[i]
+IsStress == "op" \in DOMAIN T /\ T.op = "stress"
+J == ph = 1 /\ ~IsStress           \* a replayed history
 Ev == T.ev
 N == Len(Ev)
 \* deliveries (callback invocations carrying a sequence number) to observation k up to and including event n, in order
@@ -30,6 +31,10 @@ DeadBefore(k, n) == \E m \in 1..(n - 1) : Ev[m].ev.k = k /\ Ev[m].applied /\
                         \/ (Ev[m].ev.e = "giveup" /\ Ev[m].ret = "err"))
 C08_SilentAfterCancel == J => \A n \in 1..N : (Ev[n].ev.e = "notify" /\ DeadBefore(Ev[n].ev.k, n)) => Ev[n].calls = <<>>
 C08_NoHang == J => ~T.hung
+\* free-running: duplicates and reordered copies of every notification while the application's own requests keep replacing
+\* the read loop (two loops dispatch at the same time). Fresh is a strict order within 128 s, so a sequence number that
+\* was delivered is never delivered again; nothing reaches the callback under a foreign token
+C08_StressNoRedelivery == (ph = 1 /\ IsStress /\ T.setup) => (T.twice = 0 /\ T.foreign = 0)
 \* conformance only: the callback ran exactly when the observation model says (fresh => delivered, error answers not handed over, ...)
 K08_Conforms == J => \A n \in 1..N : Ev[n].applied => ((Ev[n].calls # <<>>) = Ev[n].expcb)
 =============================================================================
